@@ -2,6 +2,7 @@ package accesslist
 
 import (
 	"context"
+	"net"
 
 	"github.com/prometheus/client_golang/prometheus"
 	"github.com/semihalev/sdns/config"
@@ -70,5 +71,10 @@ func (a *List) ServeDNS(ctx context.Context, ch *middleware.Chain) {
 
 	ch.Next(ctx)
 }
+
+// (*List).AdmitsSource implements middleware.SourceAdmitter: the
+// containment test ServeDNS applies, on the same set, for the replies the
+// server builds ahead of the chain.
+func (a *List) AdmitsSource(ip net.IP) bool { return a.allowed.ContainsIP(ip) }
 
 const name = "accesslist"
